@@ -27,7 +27,29 @@ typedef pl::Tracked<11, 0,  true,  false, false, false> NT;    // nothrow-movabl
 typedef pl::Tracked<12, 0,  false, true,  true,  true>  TH;    // copy, move and assignment may throw
 typedef pl::Tracked<13, 16, true,  false, false, false> Big;   // larger, nothrow
 
-#ifdef ALT6
+// trivially destructible AND trivially copyable, but its converting constructor can throw (after having written the storage)
+struct TT
+{
+    int pad;
+    int v;
+    explicit TT(int x) : pad(0x5A5A5A), v(x) { pl::throw_point("TT(int)"); }
+    int value() const { return v; }
+    bool moved_from() const { return false; }
+    friend bool operator==(const TT& a, const TT& b) { return a.v == b.v; }
+    friend bool operator!=(const TT& a, const TT& b) { return a.v != b.v; }
+    friend bool operator<(const TT& a, const TT& b) { return a.v < b.v; }
+    friend bool operator>(const TT& a, const TT& b) { return a.v > b.v; }
+    friend bool operator<=(const TT& a, const TT& b) { return a.v <= b.v; }
+    friend bool operator>=(const TT& a, const TT& b) { return a.v >= b.v; }
+};
+static_assert(std::is_trivially_destructible<TT>::value && std::is_trivially_copyable<TT>::value, "");
+
+#if defined(ALTT)
+// every alternative trivially destructible: the variant then uses its trivial-destructor layer
+typedef xtl::variant<Triv, TT> XV;
+typedef std::variant<Triv, TT> SV;
+static const int NALT = 2;
+#elif defined(ALT6)
 // six alternatives with duplicate types: only index-based access is well-formed
 typedef xtl::variant<Triv, NT, TH, Big, TH, NT> XV;
 typedef std::variant<Triv, NT, TH, Big, TH, NT> SV;
@@ -40,7 +62,11 @@ static const int NALT = 4;
 
 static const char* aname(int i)
 {
+#ifdef ALTT
+    static const char* n[] = {"Triv", "TT"};
+#else
     static const char* n[] = {"Triv", "NT", "TH", "Big", "TH'", "NT'"};
+#endif
     return i < 0 ? "valueless" : n[i];
 }
 
@@ -80,7 +106,10 @@ MS observe(const V& v)
 {
     MS m;
     if (v.valueless_by_exception()) { m.index = -1; return m; }
-    bool ok = R::template at<0>(v, m) || R::template at<1>(v, m) || R::template at<2>(v, m) || R::template at<3>(v, m)
+    bool ok = R::template at<0>(v, m) || R::template at<1>(v, m)
+#ifndef ALTT
+              || R::template at<2>(v, m) || R::template at<3>(v, m)
+#endif
 #ifdef ALT6
               || R::template at<4>(v, m) || R::template at<5>(v, m)
 #endif
@@ -103,10 +132,16 @@ struct Recorder
     static int tagof(const NT&) { return 1; }
     static int tagof(const TH&) { return 2; }
     static int tagof(const Big&) { return 3; }
+    static int tagof(const TT&) { return 1; }
     template <class A> int operator()(const A& a) const { out->n = 1; one(0, a); return 1; }
     template <class A, class B> int operator()(const A& a, const B& b) const { out->n = 2; one(0, a); one(1, b); return 2; }
     template <class A, class B, class C> int operator()(const A& a, const B& b, const C& c) const { out->n = 3; one(0, a); one(1, b); one(2, c); return 3; }
 };
+#ifdef ALTT
+static const int THIRD_TAG = 0;
+#else
+static const int THIRD_TAG = 3;
+#endif
 static int alt_tag(int index) { static const int t[] = {0, 1, 2, 3, 2, 1}; return index < 0 ? -1 : t[index]; }
 
 struct World
@@ -121,7 +156,11 @@ struct World
     World()
     {
         for (int i = 0; i < NV; ++i) { std::memset(raw[i], 0xA5, sizeof raw[i]); new (raw[i]) XV; m[i] = MS(); }
+#ifdef ALTT
+        third = new XV(mpark::in_place_index_t<0>{}, 7);
+#else
         third = new XV(mpark::in_place_index_t<3>{}, 7);
+#endif
     }
     ~World() { for (int i = 0; i < NV; ++i) v(i).~XV(); delete third; }
     World(const World&) = delete;
@@ -210,10 +249,14 @@ struct World
             if (cx.valueless_by_exception() != (m[i].index < 0)) e.add("valueless", who + "valueless_by_exception() wrong");
             if (m[i].index >= 0 && cx.index() != std::size_t(m[i].index)) e.add("index", who + "index()=" + str(cx.index()));
             if (m[i].index < 0 && cx.index() != xtl::variant_npos) e.add("index", who + "index() of a valueless variant is not variant_npos");
-            check_get<0>(i, e); check_get<1>(i, e); check_get<2>(i, e); check_get<3>(i, e);
-#ifdef ALT6
+            check_get<0>(i, e); check_get<1>(i, e);
+#if defined(ALTT)
+            check_get_t<Triv, 0>(i, e); check_get_t<TT, 1>(i, e);
+#elif defined(ALT6)
+            check_get<2>(i, e); check_get<3>(i, e);
             check_get<4>(i, e); check_get<5>(i, e);
 #else
+            check_get<2>(i, e); check_get<3>(i, e);
             check_get_t<Triv, 0>(i, e); check_get_t<NT, 1>(i, e); check_get_t<TH, 2>(i, e); check_get_t<Big, 3>(i, e);
 #endif
             // visit over one variant
@@ -246,7 +289,7 @@ struct World
             const XV& c3 = *third;
             try { xtl::visit(Recorder{&vis}, v(1), c3, v(0)); } catch (const xtl::bad_variant_access&) { threw = true; }
             if (threw != anyless) e.add("visit3", std::string("visit(V1,C,V0) ") + (threw ? "threw" : "did not throw"));
-            else if (!threw && (vis.n != 3 || vis.tag[0] != alt_tag(m[1].index) || vis.tag[1] != 3 || vis.val[1] != 7 || vis.tag[2] != alt_tag(m[0].index) || vis.val[2] != m[0].value || vis.val[0] != m[1].value))
+            else if (!threw && (vis.n != 3 || vis.tag[0] != alt_tag(m[1].index) || vis.tag[1] != THIRD_TAG || vis.val[1] != 7 || vis.tag[2] != alt_tag(m[0].index) || vis.val[2] != m[0].value || vis.val[0] != m[1].value))
                 e.add("visit3", "visit over three variants called the visitor with the wrong alternatives");
         }
     }
@@ -342,11 +385,19 @@ void alt_ops(HX& hx, const std::vector<int>& values)
     }
 }
 
+#ifdef ALTT
+static bool tracked_alt(int) { return false; }             // both alternatives are trivially copyable: a move is a copy
+#else
 static bool tracked_alt(int index) { return index > 0; }   // every alternative but Triv records "moved-from"
+#endif
 
 static void build_ops(HX& hx, const std::vector<int>& values)
 {
+#ifdef ALTT
+    alt_ops<0, Triv>(hx, values); alt_ops<1, TT>(hx, values);
+#else
     alt_ops<0, Triv>(hx, values); alt_ops<1, NT>(hx, values); alt_ops<2, TH>(hx, values); alt_ops<3, Big>(hx, values);
+#endif
 #ifdef ALT6
     alt_ops<4, TH>(hx, values); alt_ops<5, NT>(hx, values);
 #endif
@@ -490,7 +541,9 @@ int main(int argc, char** argv)
     int depth = 1 << 30;
     std::vector<int> values = {1, 2};
     std::string replay, inst =
-#ifdef ALT6
+#if defined(ALTT)
+        "altT";
+#elif defined(ALT6)
         "alt6";
 #else
         "alt4";
